@@ -99,6 +99,7 @@ def model_float_of_str(eng, s):
         if is_(c, 'e') or is_(c, 'E'): break
     if not md: raise PyRaise(ValueError('could not convert string to float'))
     _fresh[0] += 1
+    eng.approx = True        # the numeric value of a finite literal is not modelled (free real)
     return SymReal('finite', z3.Real('f%d' % _fresh[0]))
 
 def model_int_of_real(eng, r):
